@@ -33,6 +33,62 @@ def read_source(path):
 
 _CODE_CACHE = {}
 
+STR_METHODS = {"startswith", "endswith", "split", "rsplit", "find", "rfind", "index", "replace", "join", "strip", "lstrip",
+               "rstrip", "count", "partition", "format"}
+
+
+class _StrOps(ast.NodeTransformer):
+    """Source-to-source step applied when a repository module is shim-loaded: ``x.startswith(y)`` (and
+    the other str methods above) becomes ``pysx__m(x, 'startswith', y)`` and ``a in b`` becomes
+    ``pysx__in(a, b)``.  Both helpers behave exactly like the original expression unless a *real* str
+    receives a symbolic string argument (which CPython's C implementation would reject with TypeError);
+    in that case the receiver is lifted to a symbolic string first.  Nothing else is rewritten."""
+
+    def visit_Call(self, node):
+        self.generic_visit(node)
+        f = node.func
+        if isinstance(f, ast.Attribute) and f.attr in STR_METHODS and not any(isinstance(a, ast.Starred) for a in node.args):
+            new = ast.Call(func=ast.Name(id="pysx__m", ctx=ast.Load()),
+                           args=[f.value, ast.Constant(value=f.attr)] + node.args, keywords=node.keywords)
+            return ast.copy_location(new, node)
+        return node
+
+    def visit_Compare(self, node):
+        self.generic_visit(node)
+        if len(node.ops) == 1 and isinstance(node.ops[0], (ast.In, ast.NotIn)):
+            call = ast.Call(func=ast.Name(id="pysx__in", ctx=ast.Load()), args=[node.left, node.comparators[0]], keywords=[])
+            call = ast.copy_location(call, node)
+            if isinstance(node.ops[0], ast.NotIn):
+                return ast.copy_location(ast.UnaryOp(op=ast.Not(), operand=call), node)
+            return call
+        return node
+
+
+def _pysx_m(obj, name, *args, **kw):
+    if isinstance(obj, str):
+        from .strs import SymStr, elems
+        if any(isinstance(a, SymStr) or (isinstance(a, (tuple, list)) and any(isinstance(x, SymStr) for x in a))
+               for a in args):
+            if name == "format":
+                return getattr(obj, name)(*args, **kw)
+            obj = SymStr(elems(obj))
+    return getattr(obj, name)(*args, **kw)
+
+
+def _pysx_in(a, b):
+    if isinstance(b, str):
+        from .strs import SymStr, elems
+        if isinstance(a, SymStr):
+            return a in SymStr(elems(b))
+    return a in b
+
+
+def compile_transformed(path):
+    tree = ast.parse(read_source(path), filename=path)
+    tree = _StrOps().visit(tree)
+    ast.fix_missing_locations(tree)
+    return compile(tree, path, "exec")
+
 
 def load_source(path, fullname, package, overrides=None, pre=None, siblings=None):
     """Compile and execute the file at path into a fresh module object named fullname, then rebind
@@ -40,11 +96,13 @@ def load_source(path, fullname, package, overrides=None, pre=None, siblings=None
     siblings: {submodule name: module} installed in sys.modules / on the package while the module
     body runs, so that ``from . import x`` (e.g. a base class) resolves to a shim-loaded module."""
     if path not in _CODE_CACHE:
-        _CODE_CACHE[path] = compile(read_source(path), path, "exec")
+        _CODE_CACHE[path] = compile_transformed(path)
     code = _CODE_CACHE[path]
     mod = types.ModuleType(fullname)
     mod.__file__ = path
     mod.__package__ = package
+    mod.__dict__["pysx__m"] = _pysx_m
+    mod.__dict__["pysx__in"] = _pysx_in
     if pre:
         mod.__dict__.update(pre)
     saved = sys.modules.get(fullname)
